@@ -147,6 +147,18 @@ class MonoTimer(Timer):
         self.start(duration=duration, start=start)
 
 
+    def start(self, duration=None, start=None):
+        """Starts MonoTimer of duration secs at start time start secs.
+        When started at the current time (start not provided) the retrograde
+        reference ._last is refreshed to that time so that a clock step that
+        happened before the start is not applied to the new period.
+        """
+        started = super(MonoTimer, self).start(duration=duration, start=start)
+        if start is None:
+            self._last = self._start
+        return started
+
+
     @property
     def elapsed(self):
         """elapsed time property getter,
